@@ -92,6 +92,7 @@ def e2e_cases(run):
     lines += gen_block.e2e_sched_exhaustive(r, ".xrh", 4 if quick else 6, bodies[2:])
     lines += gen_block.e2e_sched_random(r, 1500 if quick else 12000)
     lines += gen_block.e2e_two_uploads(r, 300 if quick else 6000)
+    lines += gen_block.e2e_slow(r, 60 if quick else 1500)
     return lines
 
 
